@@ -95,32 +95,27 @@ theorem accepted_time_monotonic (s : State) (hs : StateOK s) (b : Block) (h : va
 
 /-- `MedianTime` is the power-weighted median of the commit's timestamps, each
 precommit weighted with the power of the validator in whose slot it sits — for
-every valid set and every commit with at least one signed slot whose timestamps are
-int64 nanosecond counts (years 1678–2262, where `UnixNano()` does not wrap). -/
+every valid set and every commit with at least one signed slot, whatever the
+timestamps are (instants are compared, since repo commit 6794836d2f). -/
 theorem medianTime_is_weighted_median (vals : ValSet) (hv : C36.validSet vals = true) (c : Commit)
-    (hne : slotTimes vals c.precommits ≠ [])
-    (hr : ∀ p, some p ∈ c.precommits → C36.minInt64 ≤ p.ts ∧ p.ts ≤ C36.maxInt64) :
+    (hne : slotTimes vals c.precommits ≠ []) :
     IsWeightedMedian (slotTimes vals c.precommits) (medianTime c vals) := by
   have hV := (C36.validSet_iff vals).1 hv
   rw [medianTime_eq hV]
-  refine weightedMedian_spec _ ?_ (slotTimes_weight_pos hV.pos _) hne
-  intro w hw
-  obtain ⟨p, hp, ht⟩ := slotTimes_time_mem vals c.precommits w hw
-  rw [← ht]; exact hr p hp
+  exact weightedMedian_spec _ (slotTimes_weight_pos hV.pos _) hne
 
 /-- **median time**: the time of an accepted later block IS the power-weighted median
 of its commit's timestamps (by slot). -/
 theorem accepted_time_is_weighted_median (s : State) (hs : StateOK s) (b : Block)
     (h : validateBlock s b = .ok ()) (hg : b.header.height ≠ s.initialHeight) :
     ∃ c, b.lastCommit = some c ∧
-      ((∀ p, some p ∈ c.precommits → C36.minInt64 ≤ p.ts ∧ p.ts ≤ C36.maxInt64) →
-        IsWeightedMedian (slotTimes s.lastValidators c.precommits) b.header.time) := by
+      IsWeightedMedian (slotTimes s.lastValidators c.precommits) b.header.time := by
   obtain ⟨c, hc, hl⟩ := ((validateBlock_ok_iff s hs b).1 h).lastCommit
   unfold LastCommitOK at hl
   rw [if_neg hg] at hl
-  refine ⟨c, hc, fun hr => ?_⟩
+  refine ⟨c, hc, ?_⟩
   rw [hl.2.2.2]
-  refine medianTime_is_weighted_median _ hs.2 c ?_ hr
+  refine medianTime_is_weighted_median _ hs.2 c ?_
   intro hnil
   have h0 := signedPower_eq_zero s.lastBlockID (wrap64 (b.header.height - 1)) c.blockID c.precommits
     s.lastValidators hnil
@@ -363,10 +358,7 @@ theorem prefix_medianTime_misweights :
     medianTimeByField exCommitWrong exSkew = some 9000 ∧ medianTime exCommitWrong exSkew = 2000 ∧
     IsWeightedMedian (slotTimes exSkew exCommitWrong.precommits) 2000 := by
   refine ⟨by decide, by rfl, by rfl, by rfl, ?_⟩
-  have := medianTime_is_weighted_median exSkew (by decide) exCommitWrong (by decide) (by
-    intro p hp
-    simp [exCommitWrong, exPc] at hp
-    rcases hp with rfl | rfl | rfl <;> decide)
+  have := medianTime_is_weighted_median exSkew (by decide) exCommitWrong (by decide)
   rwa [show medianTime exCommitWrong exSkew = 2000 from by rfl] at this
 
 /-! ### non-vacuity: a concrete state with a valid later block and a valid first block -/
@@ -426,6 +418,35 @@ def exGB : Block :=
     nTxs := 2, dataHashC := exH, lastCommit := some ⟨0, []⟩, lastCommitHashC := exH }
 example : validateCommitAndTime exG exGB ⟨0, []⟩ = .ok () := by rfl
 example : validateBasic exGB = .ok () := by rfl
+
+/-! ### what repo commit 6794836d2f removed
+
+Before it, `WeightedMedian` sorted by `Time.UnixNano()`, which wraps for instants
+outside the years 1678–2262, while decodable vote timestamps reach year 9999 and no
+check bounds a precommit's timestamp: `t + 2^64 ns` sorted where `t` would and was
+returned as the median. -/
+
+/-- 2^64 ns after 1015: sorted (by wrapped `UnixNano()`) exactly where 1015 would. -/
+def exFar : Int := 1015 + 18446744073709551616
+/-- all four validators (power 1 each) sign; slot 3 carries the far-future timestamp -/
+def exCW : Commit := ⟨3, [exP 0 1010, exP 1 1020, exP 2 1030, exP 3 exFar]⟩
+
+/-- On a commit `VerifyCommit` accepts, the pre-fix `MedianTime` returned ONE validator's
+far-future timestamp (25 % of the power), which is not the weighted median; the current
+one returns the weighted median 1020. -/
+theorem prefix_weightedMedian_wraps :
+    C36.verifyCommit exVals 3 7 exCW.toC36 = .ok () ∧
+    medianTimeByUnixNano exCW exVals = exFar ∧
+    ¬ IsWeightedMedian (slotTimes exVals exCW.precommits) exFar ∧
+    medianTime exCW exVals = 1020 ∧
+    IsWeightedMedian (slotTimes exVals exCW.precommits) 1020 := by
+  refine ⟨by rfl, by rfl, ?_, by rfl, ?_⟩
+  · intro hm
+    have := hm.least ⟨1020, 1⟩ (by decide) (by decide)
+    revert this
+    decide
+  · have := medianTime_is_weighted_median exVals (by decide) exCW (by decide)
+    rwa [show medianTime exCW exVals = 1020 from by rfl] at this
 
 /-- a two-block history satisfying the hypotheses of `consecutive_applied_blocks`
 can be built from `exS`/`exB`: the state after `exB`. -/
